@@ -551,12 +551,56 @@ class SymBits(Sym):
 
     __hash__ = None
 
-    def _no(self, *a):
-        raise Unsupported("arithmetic on an opaque BITS payload")
+    # Arithmetic on a payload: the bits are read as an IEEE-754 binary64 value and the
+    # operation is carried out in z3's FloatingPoint theory (round-to-nearest-even), so a
+    # "harmless" 0.0 + x is seen to turn -0.0 into +0.0.  Sign manipulations stay on the bits
+    # (they are exact for every payload, NaNs included).
+    def _fp(self):
+        c = ctx()
+        c.fp_mode = True
+        return SymFP(z3.fpBVToFP(self.e, FP64))
 
-    __add__ = __radd__ = __sub__ = __rsub__ = __mul__ = __rmul__ = _no
-    __truediv__ = __rtruediv__ = __neg__ = __abs__ = _no
-    __lt__ = __le__ = __gt__ = __ge__ = _no
+    def __add__(self, o):
+        return self._fp() + _unbits(o)
+
+    def __radd__(self, o):
+        return _unbits(o) + self._fp()
+
+    def __sub__(self, o):
+        return self._fp() - _unbits(o)
+
+    def __rsub__(self, o):
+        return _unbits(o) - self._fp()
+
+    def __mul__(self, o):
+        return self._fp()._b(_unbits(o), lambda a, b: z3.fpMul(RNE, a, b))
+
+    def __rmul__(self, o):
+        return self._fp()._b(_unbits(o), lambda a, b: z3.fpMul(RNE, a, b), True)
+
+    def __truediv__(self, o):
+        return self._fp()._b(_unbits(o), lambda a, b: z3.fpDiv(RNE, a, b))
+
+    def __rtruediv__(self, o):
+        return self._fp()._b(_unbits(o), lambda a, b: z3.fpDiv(RNE, a, b), True)
+
+    def __neg__(self):
+        return SymBits(self.e ^ z3.BitVecVal(1 << 63, 64))
+
+    def __abs__(self):
+        return SymBits(self.e & z3.BitVecVal((1 << 63) - 1, 64))
+
+    def __lt__(self, o):
+        return self._fp() < _unbits(o)
+
+    def __le__(self, o):
+        return self._fp() <= _unbits(o)
+
+    def __gt__(self, o):
+        return self._fp() > _unbits(o)
+
+    def __ge__(self, o):
+        return self._fp() >= _unbits(o)
 
     def __repr__(self):
         return "SymBits(%s)" % (self.e,)
@@ -566,6 +610,10 @@ class SymBits(Sym):
 
 FP64 = z3.Float64()
 RNE = z3.RNE()
+
+
+def _unbits(v):
+    return v._fp() if isinstance(v, SymBits) else v
 
 
 def fp_const(v):
